@@ -252,7 +252,7 @@ class TemplateGen:
         if k == "ws":
             return self.tag("whitespace " + rng.choice(["all", "single", "oneline"]))
         if k == "set":
-            if sc["k"] and rng.random() < 0.5:
+            if sc["while"] or (sc["k"] and rng.random() < 0.5):      # never reset the counter inside a while body
                 return self.tag("set k = k + 1")
             sc["k"] = True
             return self.tag("set k = 0")
@@ -400,7 +400,14 @@ def guarded_render(cfg, src, seconds=20):
         old = signal.signal(signal.SIGALRM, on_alarm)
     except ValueError:          # not in the main thread
         return render(cfg, src)
-    signal.setitimer(signal.ITIMER_REAL, seconds)
+    signal.setitimer(signal.ITIMER_REAL, seconds, 0.2)      # keeps firing: a bare {% except %} may swallow one
+    try:
+        import resource
+        soft, hard = resource.getrlimit(resource.RLIMIT_AS)
+        if soft == resource.RLIM_INFINITY or soft > 6 << 30:
+            resource.setrlimit(resource.RLIMIT_AS, (6 << 30, hard))   # a runaway template must not exhaust the machine
+    except Exception:
+        pass
     try:
         return render(cfg, src)
     except _Timeout:
